@@ -4,4 +4,4 @@
 From Coq Require Extraction ExtrOcamlBasic.
 From Bourse Require Import Model.Types Model.Book Model.Obs Model.Codec Model.Rng Model.Env Model.EnvObs Spec.RefBook Spec.Monitors Spec.Runner Spec.EnvRunner.
 Extraction Language OCaml.
-Extraction "model.ml" rs_init rs_step enc_report valid_op rs_valid rs_ended es_init es_step_fn es_valid es_ended.
+Extraction "model.ml" rs_init rs_step enc_report valid_op rs_valid rs_ended es_init es_step_fn es_valid es_ended es_add_agent.
